@@ -291,6 +291,7 @@ def _factor_table(spec):
                 [(str(lv), numpy.array([1.0 if v == lv else 0.0 for v in vals])) for lv in mf.level_order(c)],
                 c["flavor"],
             )
+            table.update(_c_variants(c["name"], table[c["name"]]))
         else:
             table[c["name"]] = ("num", raw[c["name"]])
     for expr, (needs, fn) in EXPR_ORACLES.items():
@@ -299,11 +300,40 @@ def _factor_table(spec):
     return table
 
 
+def _c_variants(name, entry):
+    """Categorical factor expressions C(name, ...) written as formulaic prints them, with their documented meaning:
+    full encoding = one indicator per level in level order (labels `expr[level]`); reduced labels:
+      C(A), C(A, levels=[...]), C(A, contr.SAS): `expr[T.level]` = indicator of the level;
+      C(A, contr.sum): `expr[S.level]` = indicator(level) - indicator(last level)   (deviation coding).
+    4th tuple element: {reduced piece label: vector}."""
+    _, levels, flavor = entry[:3]
+    out = {}
+
+    def treat(expr, lv):
+        return {f"{expr}[T.{lab}]": ind for lab, ind in lv}
+
+    e = f"C({name})"
+    out[e] = ("cat", levels, flavor, treat(e, levels))
+    rev = list(reversed(levels))
+    e = f"C({name}, levels={[lab for lab, _ in rev]!r})"
+    out[e] = ("cat", rev, flavor, treat(e, rev))
+    e = f"C({name}, contr.SAS)"
+    out[e] = ("cat", levels, flavor, treat(e, levels))
+    e = f"C({name}, contr.sum)"
+    last = levels[-1][1]
+    out[e] = ("cat", levels, flavor, {f"{e}[S.{lab}]": ind - last for lab, ind in levels[:-1]})
+    return out
+
+
+def _variants_of(table, name):
+    return [e for e in table if e.startswith(f"C({name}") and table[e][0] == "cat"]
+
+
 def _pool(spec, table, cap):
     cats = [c["name"] for c in spec["cols"] if c["kind"] == "cat"]
     nums = [c["name"] for c in spec["cols"] if c["kind"] == "num"]
     exprs = [e for e in EXPR_ORACLES if e in table]
-    pool = cats + nums[:2] + exprs[:2] + nums[2:] + exprs[2:]
+    pool = cats + nums[:2] + exprs[:2] + nums[2:] + exprs[2:]   # (the C(...) variants are added separately)
     return pool[:cap]
 
 
@@ -321,6 +351,7 @@ def _cases_for_frame(spec, seed, frame_index, thorough):
     terms: list of (scale|None, tuple_of_factor_exprs)."""
     table = _factor_table(spec)
     pool = _pool(spec, table, cap=6 if thorough else 5)
+    cats = [c["name"] for c in spec["cols"] if c["kind"] == "cat"]
     cases = []
     # (1) exhaustive single-term formulas: every ordered tuple of <=3 distinct factors, with/without a
     #     literal scale, with/without intercept
@@ -331,7 +362,7 @@ def _cases_for_frame(spec, seed, frame_index, thorough):
                     cases.append((intercept, [(scale, fs)]))
     # (2) seeded multi-term formulas: 2..4 terms with distinct factor sets
     rng = random.Random(seed * 1000003 + frame_index)
-    n_multi = 600 if thorough else 150
+    n_multi = 600 if thorough else 100
     subsets = [fs for k in (1, 2, 3) for fs in itertools.combinations(pool, k)]
     if len(subsets) >= 2:
         for _ in range(n_multi):
@@ -343,7 +374,27 @@ def _cases_for_frame(spec, seed, frame_index, thorough):
                 rng.shuffle(fs)
                 scale = rng.choice(SCALES) if rng.random() < 0.3 else None
                 terms.append((scale, tuple(fs)))
+            if cats and rng.random() < 0.35:
+                # write the first categorical as one of its C(...) variants throughout this formula
+                v = rng.choice(_variants_of(table, cats[0]))
+                terms = [(sc, tuple(v if f == cats[0] else f for f in fs)) for sc, fs in terms]
             cases.append((rng.random() < 0.7, terms))
+    # (3) systematic: every C(...) variant of the first categorical alone, crossed with a numeric / another categorical,
+    #     and at both ranks in one build (V + V:x)
+    if cats:
+        n0 = next((p for p in pool if p not in cats), None)
+        b0 = cats[1] if len(cats) > 1 else None
+        for v in _variants_of(table, cats[0]):
+            shapes = [[(v,)]]
+            if n0:
+                shapes += [[(v, n0)], [(n0, v)], [(v,), (v, n0)]]
+            if b0:
+                shapes += [[(v, b0)], [(b0, v)], [(v,), (v, b0)], [(b0,), (b0, v)]]
+            if n0 and b0:
+                shapes += [[(v, b0), (n0,)], [(n0, b0, v)]]
+            for shape in shapes:
+                for intercept in (True, False):
+                    cases.append((intercept, [(None, fs) for fs in shape]))
     return table, [(_formula_text(i, t), i, t) for i, t in cases]
 
 
@@ -410,7 +461,11 @@ def _admissible_pieces(table):
         if ent[0] == "cat":
             for lv, ind in ent[1]:
                 pieces[f"{f}[{lv}]"] = (f, ind)
-                pieces[f"{f}[T.{lv}]"] = (f, ind)
+                if len(ent) < 4:
+                    pieces[f"{f}[T.{lv}]"] = (f, ind)
+            if len(ent) >= 4:
+                for lab, vec in ent[3].items():
+                    pieces[lab] = (f, vec)
         else:
             pieces[f] = (f, ent[1])
     return pieces
@@ -498,9 +553,7 @@ def _check_case(spec, df, table, formula, intercept, terms, rank, output):
                 j = bad[0]
                 term_scale = _scale_of_column(terms, table, j)
                 r = _ratio_class(X[:, j], M[:, j] / term_scale)
-                cls = _scale_cls(r, [term_scale])
-                if tag and not cls.startswith("literal-scale"):
-                    cls = tag
+                cls = _scale_cls(r, [term_scale])  # (no dtype tag here: a wrong number is not the str-dtype symptom)
                 fails.append(("C02.e2e.rankoff.kronecker-values", cls,
                               f"column {names[j]!r}: got {X[:, j].tolist()} expected {M[:, j].tolist()} (ratio {r})",
                               f"j = names.index({names[j]!r})\nassert numpy.allclose(col(j), {M[:, j].tolist()!r}, rtol=1e-9, atol=1e-12), col(j)\n"))
@@ -532,8 +585,6 @@ def _check_case(spec, df, table, formula, intercept, terms, rank, output):
             if not any(numpy.allclose(X[:, j], s * base, rtol=RTOL, atol=ATOL, equal_nan=True) for s in cands):
                 r = _ratio_class(X[:, j], base)
                 cls = _scale_cls(r, cands)
-                if tag and not cls.startswith("literal-scale"):
-                    cls = tag
                 fails.append(("C02.e2e.rankon.label-product", cls,
                               f"column {label!r}: got {X[:, j].tolist()} expected {[float(x) for x in cands[0] * base]} "
                               f"(admissible term scales {cands}; observed/unscaled-product ratio {r})",
@@ -591,12 +642,16 @@ def _scale_cls(r_unscaled, cands):
 
 
 def _e2e_task(args):
-    spec, seed, frame_index, thorough, part, nparts = args
-    table, cases = _cases_for_frame(spec, seed, frame_index, thorough)
+    base_spec, seed, frame_index, thorough, part, nparts = args
+    table, cases = _cases_for_frame(base_spec, seed, frame_index, thorough)
     outputs = ("pandas", "numpy", "sparse")
     n_eval, keys, samples, failures, skipped = 0, set(), [], [], 0
     per_class = {}
-    df = mf.build_frame(spec)
+    # the same rows under four kinds of row labels; the oracle is positional (raw value lists), so a column that is
+    # combined by index label instead of by position shows up as a wrong value
+    irng = random.Random(seed * 31 + frame_index)
+    ispecs = [mf.with_index(base_spec, kind, irng) for kind in mf.INDEX_KINDS]
+    dfs = [mf.build_frame(sp) for sp in ispecs]
     for ci in range(part, len(cases), nparts):
         formula, intercept, gen_terms = cases[ci]
         single = len(gen_terms) == 1
@@ -605,8 +660,13 @@ def _e2e_task(args):
             skipped += 1
             continue
         for rank in (True, False):
-            outs = outputs if (thorough and single) else (outputs[(ci + rank) % 3],)
-            for output in outs:
+            k0 = (ci // 3 + rank) % 4
+            if thorough and single:
+                runs = [(o, k0) for o in outputs] + [("pandas", k) for k in range(4) if k != k0]
+            else:
+                runs = [(outputs[(ci + rank) % 3], k0)]
+            for output, kind in runs:
+                spec, df = ispecs[kind], dfs[kind]
                 try:
                     status, fails = _check_case(spec, df, table, formula, intercept, terms, rank, output)
                 except Exception:
@@ -639,9 +699,11 @@ def _run_e2e(ctx):
              "output); every column is recomputed from the raw data through its parsed label; all cases non-trivial "
              "(each formula has a term with >= 1 data factor)",
         exhaustive=False,
-        bound="frames: rows 1..6, 0-3 categoricals (1..4 levels; category/object/str dtype), 0-3 numerics (+ I(a * 2), "
+        bound="frames: rows 1..6 with row labels default / shuffled 0..n-1 / subset of a larger range / strings (rotating; "
+              "thorough: pandas output under all four), 0-3 categoricals (1..4 levels; category/object/str dtype; also written "
+              "C(A), C(A, levels=[reversed]), C(A, contr.SAS), C(A, contr.sum)), 0-3 numerics (+ I(a * 2), "
               "np.log(b), I(a + b), I(b ** 2)); formulas: every single term of <= 3 ordered factors from a pool of <= 5 (quick) / 6 (thorough), "
-              "x {no scale, 2.5:} x intercept on/off (exhaustive), + seeded 2-4 term formulas with scales "
+              "x {no scale, 2.5:} x intercept on/off (exhaustive), + seeded 2-4 term formulas (100 quick / 600 thorough per frame) with scales "
               f"{SCALES}; rank on/off; outputs rotate in the quick tier, all three in the thorough tier (single-term cases)",
     ) as b:
         totals, skipped = {}, 0
